@@ -103,6 +103,22 @@ def run(ctx):
                             spec_fail.append((name, "entry point returns a finite energy", {**desc}))
                     except Exception as ex:
                         spec_fail.append((name, "entry point is callable for this option combination", {**desc, "error": repr(ex)[:300]}))
+                # the incoming cached overlaps are not an input: every entry point recomputes them from the walkers
+                # (the driver hands over states whose cache is stale after stochastic reconfiguration)
+                if nb == 1:
+                    for name in entry_all:
+                        if name not in res:
+                            continue
+                        try:
+                            pdg = systems.copy_prop_data(S["prop_data"])
+                            pdg["overlaps"] = jnp.array(np.array(pdg["overlaps"]) * (0.3 + 0.4j) + (0.1 * np.arange(1, len(np.array(pdg["overlaps"])) + 1)))
+                            eg, _ = call(name, smp, S, wave_data=wdc, prop_data=pdg)
+                            evals += 1
+                            if abs(float(np.real(eg)) - res[name][0]) > tol * max(1.0, abs(res[name][0])):
+                                spec_fail.append((name, "the returned energy does not depend on the overlaps cached in the incoming state (all entry points agree for the same walkers, weights and seed)",
+                                                  {**desc, "with_consistent_cache": res[name][0], "with_stale_cache": float(np.real(eg))}))
+                        except Exception as ex:
+                            spec_fail.append((name, "entry point is callable on a state with a stale overlap cache", {**desc, "error": repr(ex)[:300]}))
                 g_ = lambda n: res.get(n, (None, None))[0]
 
                 def same(a, b, clause, tl=tol):
